@@ -44,6 +44,7 @@ class Obs:
         self.wall: float = 0.0
         self.timeout = False
         self.real_results_left: Any = None
+        self.started_after_raise: list = []
 
     def summary(self) -> dict:
         return {
@@ -68,7 +69,10 @@ def make_storage(kind: str, d: str):
     return storages.make(kind, os.path.join(d, 'store'))
 
 
-def execute_case(spec: dict, *, chooser: Optional[Chooser] = None, gated: bool = False, deadline_s: float = 120.0,
+DEADLINES = {'controlled': 20.0, 'serial': 20.0, 'fork': 60.0, 'spawn': 150.0}
+
+
+def execute_case(spec: dict, *, chooser: Optional[Chooser] = None, gated: bool = False, deadline_s: Optional[float] = None,
                  keep_dir: bool = False, pre_hook=None, storage_wrapper=None) -> Obs:
     obs = Obs()
     d = tempfile.mkdtemp(prefix='case-', dir=scratch_root())
@@ -100,9 +104,11 @@ def execute_case(spec: dict, *, chooser: Optional[Chooser] = None, gated: bool =
         if gated:
             with open(os.path.join(obs_dir, 'gated'), 'w'):
                 pass
+        backend_kind = lab_spec['backend']
+        if deadline_s is None:
+            deadline_s = DEADLINES.get(backend_kind, 60.0)
         ctl = Control(chooser or Chooser(spec.get('schedule', [])), gated=gated, obs_dir=obs_dir,
                       deadline=time.monotonic() + deadline_s)
-        backend_kind = lab_spec['backend']
         if backend_kind == 'controlled':
             backend = ControlledBackend(ctl)
         else:
@@ -140,6 +146,12 @@ def execute_case(spec: dict, *, chooser: Optional[Chooser] = None, gated: bool =
         finally:
             sink.close()
         runner = ctl.runner
+        if obs.outcome == 'raise' and backend_kind in ('fork', 'spawn') and not obs.timeout:
+            # pass-only grace window: nothing may start once run_tasks has raised
+            before = [r[1] for r in vu.read_trace(obs_dir) if r[0] == 'S']
+            time.sleep(0.4 if backend_kind == 'fork' else 1.0)
+            after = [r[1] for r in vu.read_trace(obs_dir) if r[0] == 'S']
+            obs.started_after_raise = after[len(before):]
         if gated:
             # let every worker still parked at a gate run to completion, and reap what a failed run left behind
             for n in spec['nodes']:
